@@ -20,7 +20,13 @@ Oracle per sub-case (statement of C19):
             function at features[i] (NaN == NaN, -inf == -inf, float32 slack)
   prior     max(rewards) >= max over the seeded prior points of the score
   determ    same seed + same score => bit-identical result (another seed is
-            run in between)
+            run in between); in 1 of 4 cases additionally on a freshly built,
+            re-traced and re-compiled optimiser
+  evaluated every returned (features, reward) row is one the optimiser really
+            evaluated (the score function logs its calls through an ordered
+            io_callback), and the returned rewards are the top `count` of all
+            non-NaN rewards evaluated in the loop (docstring of
+            _update_best_results / "best trials found")
   decode    the converter decodes every returned candidate to a member of the
             search space (independent membership oracle of harness/spaces.py)
   any exception from the optimiser call is a violation.
@@ -67,7 +73,6 @@ ASSUMPTIONS = [
 # the finding (class `known_trigger:*`), so the rest of the search is not blind.
 KNOWN_RANDOM_PADDING = True      # random strategy ignores feature padding
 KNOWN_PRIOR_NOT_MERGED = True    # priors never merged into the best results
-KNOWN_NAN_OUTRANKS = True        # NaN rewards rank above every number
 
 
 # ------------------------------------------------------------------ generator
@@ -152,7 +157,9 @@ def _case(draw, max_subs=6):
         'opt_prior': (draw(st.one_of(st.none(), st.integers(0, n_prior - 1)))
                       if n_prior else None),
     })
-  return {'layout': layout, 'strategy': strategy, 'batch': batch,
+  rebuild = draw(st.integers(0, 3)) == 0
+  return {'rebuild': rebuild, 'layout': layout, 'strategy': strategy,
+          'batch': batch,
           'max_evaluations': max_evaluations, 'count': count,
           'n_parallel': n_parallel, 'use_fori': use_fori, 'n_prior': n_prior,
           'subs': subs}
@@ -288,6 +295,7 @@ def check(case):
     return out
 
   nt_keys = []
+  first_box = [None]
   static = {k: v for k, v in case.items() if k != 'subs'}
   for si, sub in enumerate(case['subs']):
     tag = 'sub %d' % si
@@ -349,6 +357,8 @@ def check(case):
         kw['prior_features'] = prior_mi
       res = jopt(rscore, **kw)
       jax.block_until_ready(res)
+      if seed == sub['seed'] and first_box[0] is None:
+        first_box[0] = (rscore, kw, res)
       return res, list(lib.LOG)
 
     try:
@@ -429,8 +439,8 @@ def check(case):
         okv = abs(a - b) <= tol
       if okv:
         continue
-      if lib.near_plateau_edge(score, fc[i], fk[i]) and not (
-          math.isnan(a) or math.isinf(a) or math.isnan(b) or math.isinf(b)):
+      if not (math.isnan(a) or math.isinf(a) or math.isnan(b)
+              or math.isinf(b)) and lib.near_plateau_edge(score, fc[i], fk[i]):
         out.cls('plateau_edge_tolerated')
         continue
       zero = (not np.any(fc[i] != 0)) and (not np.any(fk[i] != 0))
@@ -447,10 +457,13 @@ def check(case):
     # ---- (7) returned candidates were evaluated and are the top `count`
     plog = log[:1] if prior_mi is not None else []
     llog = log[1:] if prior_mi is not None else log
+    n_evaluated = int(sum(l[2].shape[0] for l in llog))
     if len(llog) != steps:
-      out.violate('evaluated/number_of_batches/' + strategy,
-                  '%s: %d score calls in the loop, expected %d' % (
-                      tag, len(llog), steps))
+      out.cls('loop_steps_differ_from_ceil')  # not part of the property
+    if n_evaluated < count:
+      # placeholders are unavoidable (NOT clause): nothing to judge here
+      out.inconclusive = True
+      continue
     nan_in_result = bool(np.any(np.isnan(rw)))
     if llog:
       e_c = np.concatenate([l[0].reshape((l[2].shape[0], par, ncp)) for l in llog])
@@ -561,7 +574,28 @@ def check(case):
           out.violate('decode/exception/best_candidates_to_trials/%s/%s' % (
               type(e).__name__, _vizier_frame(e)), '%s: %r' % (tag, e))
 
-  out.count('xla_compiles_approx', 0)
+  # ---- (5b) same seed on a freshly built (re-traced, re-compiled) optimiser
+  first = first_box[0]
+  if case.get('rebuild') and first is not None:
+    key = (L, strategy, batch, case['max_evaluations'], case['use_fori'])
+    lib._OPT.pop(key, None)  # pylint: disable=protected-access
+    try:
+      _, jopt2 = lib.optimizer(*key)
+      del lib.LOG[:]
+      res2 = jopt2(first[0], **first[1])
+      jax.block_until_ready(res2)
+      out.count(EVAL_COUNTER, 1)
+      out.cls('rebuilt_optimizer')
+      if not (_same(res2.features.continuous, first[2].features.continuous)
+              and _same(res2.features.categorical,
+                        first[2].features.categorical)
+              and _same(res2.rewards, first[2].rewards)):
+        out.violate('determinism/fresh_optimizer_differs/' + strategy,
+                    'rewards %r vs %r' % (np.asarray(res2.rewards).tolist(),
+                                          np.asarray(first[2].rewards).tolist()))
+    except Exception as e:  # pylint: disable=broad-except
+      out.violate('exception/call/%s/%s/%s' % (
+          strategy, type(e).__name__, _vizier_frame(e)), 'rebuild: %r' % e)
   if nt_keys:
     out.nontrivial = True
     out.nt_keys = nt_keys
